@@ -94,6 +94,8 @@ def answer (bins : BinTable) (o : Opts) (chunks : List (List Rec)) : Json :=
     ("l1_boundschecked", jExcept jCells (boundsChecked nb l1)),
     ("l0", jExcept jCells (specCounts bins o all)),
     ("at_len", Json.bool (atLength bins o all)),
+    ("chunk_info", jList (fun ch => Json.arr #[jNat ch.length, jNat (anchors o ch).length,
+        Json.bool ((anchors o ch).any Anchor.lower)]) chunks),
     ("n_known", jNat (anchors o all).length),
     ("n_retained", jNat (retained o all).length)]
 
